@@ -169,6 +169,11 @@ class Ref:
 
     def apply(self, t):
         op = t[0]
+        if op == "T2":
+            # the tuple operation must be equivalent to its two component operations, in order
+            self.apply(t[2])
+            self.apply(t[3])
+            return
         a = [int(x) for x in t[1:]]
         if op == "new":
             s, k, dt, it, n, v = a
@@ -288,10 +293,6 @@ class Ref:
                 raise Invalid("conv kind")
             if cb.kind >= 7:
                 # SparseVector(Blocked)::convert is documented as "a deep copy in any case" (sort(); clone(other))
-                if ca is not None and not ca.sidx:
-                    if s == b:
-                        raise Invalid("self-convert of a scalar-less sparse vector")
-                    self.flags.add("F4")     # open finding F-C20-4: the real code throws std::out_of_range here
                 if s == b:
                     raise Abort("sparse vector convert is a clone: self-clone aborts")
                 tdt, tit = (dt, it) if ca is None else (ca.dt, ca.it)
@@ -475,12 +476,31 @@ def split_ops(case):
     t = case.split()
     ops, i = [], 0
     while i < len(t):
+        if t[i] == "T2":
+            # one TupleVector operation = two component operations executed as one step
+            if i + 2 >= len(t):
+                return None
+            n1 = OP_ARITY.get(t[i + 2])
+            if n1 is None or i + 3 + n1 >= len(t):
+                return None
+            j = i + 3 + n1
+            n2 = OP_ARITY.get(t[j])
+            if n2 is None:
+                return None
+            ops.append(["T2", t[i + 1], t[i + 2:i + 3 + n1], t[j:j + 1 + n2]])
+            i = j + 1 + n2
+            continue
         n = OP_ARITY.get(t[i])
         if n is None:
             return None
         ops.append(t[i:i + 1 + n])
         i += 1 + n
     return ops
+
+
+def flat(t):
+    """token list of one (possibly composite) op"""
+    return t if t[0] != "T2" else ["T2", t[1]] + t[2] + t[3]
 
 
 # ---------------------------------------------------------------------------------------------
@@ -522,7 +542,7 @@ def oracle(case, out):
         if out == "ABORT":
             return None
         return "step %d (%s): a documented precondition violation (%s) must be reported by an abort, got: %s" % (
-            expect_abort[0], " ".join(expect_abort[1]), expect_abort[2], out[:120])
+            expect_abort[0], " ".join(flat(expect_abort[1])), expect_abort[2], out[:120])
     if out.split(":")[0] in ("ABORT", "EXC", "TIMEOUT", "SIGNAL", "SANITIZER", "EXIT") or out.startswith("BAD-OP"):
         if out == "EXIT:1":
             return "MemoryPool::finalize() found leaked chunks after all containers were destroyed (exit 1)"
@@ -541,7 +561,7 @@ def oracle(case, out):
                 j += 1
             what = classify_diff(g, exp, j)
             return "after step %d (%s): %s; observed '%s' expected '%s'" % (
-                k, " ".join(ops[k]), what, " ".join(g[max(0, j - 3):j + 6]), " ".join(exp[max(0, j - 3):j + 6]))
+                k, " ".join(flat(ops[k])), what, " ".join(g[max(0, j - 3):j + 6]), " ".join(exp[max(0, j - 3):j + 6]))
     return None
 
 
@@ -772,6 +792,11 @@ CORPUS = [
     "mk 0 7 0 0 3 10 clone 1 0 0 0 conv 2 0 0 0 conv 3 0 1 1 clone 3 0 1 5 conv 1 2 0 0 format 1 9 destroy 0 destroy 1 destroy 2 destroy 3 end",
     "mk 0 8 1 1 2 10 clone 1 0 2 0 conv 2 0 1 1 conv 3 0 0 0 move 1 1 destroy 3 destroy 0 destroy 1 destroy 2 end",
     "mk 0 7 0 0 0 10 clone 1 0 0 0 conv 2 0 0 0 destroy 0 destroy 1 destroy 2 end",
+    # SparseVector(Blocked)::convert into a cleared / moved-from target: a deep copy (threw std::out_of_range before
+    # fix 65c8822e6 of /repo: former F-C20-4)
+    "mk 0 7 0 0 2 10 mk 1 7 0 0 1 5 clear 1 conv 1 0 0 0 destroy 0 destroy 1 end",
+    "mk 0 8 0 0 2 10 mk 1 8 0 0 1 5 move 2 1 conv 1 0 0 0 destroy 1 destroy 0 destroy 2 end",
+    "mk 0 7 1 1 2 10 mk 1 7 0 0 1 5 clear 1 conv 1 0 0 0 destroy 1 destroy 0 end",
     # cross-type clone (all modes) into a live container
     "mat 0 2 0 0 2 2 1 3 1 mat 1 2 1 1 1 1 1 7 0 clone 1 0 0 5 clone 1 0 2 5 clone 1 0 1 5 clone 1 0 4 5 destroy 0 destroy 1 end",
 ]
@@ -892,30 +917,6 @@ def exhaustive_histories(maxlen):
     return out
 
 
-# F-C20-4 (open, see FINDINGS_C20.md): SparseVector(Blocked)::convert into a cleared / moved-from target throws
-# std::out_of_range (sort() -> _scalar_index.at(4)).  Judged by the oracle (expected: a deep copy of the source) and
-# matched against the open entry "c20-edge:F4" of known_findings_C20.json.
-EDGE_F4 = [
-    "mk 0 7 0 0 2 10 mk 1 7 0 0 1 5 clear 1 conv 1 0 0 0 destroy 0 destroy 1 end",
-    "mk 0 8 0 0 2 10 mk 1 8 0 0 1 5 move 2 1 conv 1 0 0 0 destroy 1 destroy 0 destroy 2 end",
-    "mk 0 7 1 1 2 10 mk 1 7 0 0 1 5 clear 1 conv 1 0 0 0 destroy 1 destroy 0 end",
-]
-
-
-def signature_f4(case, out, why):
-    ref = Ref()
-    try:
-        for t in split_ops(case) or []:
-            if t[0] == "end":
-                break
-            ref.apply(t)
-    except (Abort, Invalid, IndexError):
-        pass
-    if "F4" in ref.flags and out == "EXC":
-        return "c20-edge:F4"
-    return signature(case, out, why)
-
-
 def install_known_findings():
     """known findings of this property live in known_findings_C20.json (same format and matching rule as the shared
     KNOWN_FINDINGS.json: property + signature, status open)"""
@@ -961,6 +962,36 @@ def shared_target_cases():
     return out
 
 
+def tuple_cases():
+    """deterministic histories over real TupleVector<DenseVector, DenseVector> objects (tuple t = component slots):
+    construct, clone fresh / in place in every mode, move construction / assignment / self-move, clear, format, copy,
+    mixed with ordinary operations on the components (shallow clones of components into plain containers, writes),
+    destruction in different orders"""
+    out = []
+    def T(t, name, a0, a1):
+        return "T2 %d %s %s %s %s" % (t, name, a0, name, a1)
+    for dt, it in ((0, 0), (1, 1), (0, 1)):
+        new0 = "T2 0 new 0 0 %d %d 3 10 new 1 0 %d %d 2 50" % (dt, it, dt, it)
+        for m in range(5):
+            # fresh clone, then clone-in-place back, plain relatives of the components in between
+            out.append(" ".join([
+                new0, T(1, "clone", "2 0 %d 70" % m, "3 1 %d 80" % m), "clone 6 2 0 0", "write 6 0 0 1 401",
+                T(1, "clone", "2 0 %d 71" % ((m + 1) % 5), "3 1 %d 81" % ((m + 1) % 5)), "write 0 0 0 0 402",
+                T(0, "clone", "0 2 %d 72" % m, "1 3 %d 82" % m), T(1, "format", "2 7", "3 7"),
+                T(0, "destroy", "0", "1"), "destroy 6", T(1, "destroy", "2", "3"), "end"]))
+        out.append(" ".join([
+            new0, T(1, "move", "2 0", "3 1"), T(1, "move", "2 2", "3 3"), T(0, "clone", "0 2 0 0", "1 3 0 0"),
+            T(2, "clone", "4 2 3 0", "5 3 3 0"), T(2, "copy", "4 0 0", "5 1 0"), T(0, "copy", "0 4 1", "1 5 1"),
+            T(1, "clear", "2", "3"), "adopt 6 4", "range 7 4 2 1", "write 7 0 0 0 9", "destroy 7",
+            T(2, "move", "4 0", "5 1"), T(0, "destroy", "0", "1"), T(2, "destroy", "4", "5"), "destroy 6",
+            T(1, "destroy", "2", "3"), "end"]))
+        out.append(" ".join([
+            "T2 0 new 0 0 %d %d 0 10 new 1 0 %d %d 4 50" % (dt, it, dt, it), T(1, "clone", "2 0 2 0", "3 1 2 0"),
+            "conv 6 3 %d %d" % (1 - dt, it), "clone 3 6 3 0", T(1, "clone", "2 0 0 0", "3 1 0 0"),
+            "move 7 3", T(0, "destroy", "0", "1"), "destroy 7", "destroy 6", T(1, "destroy", "2", "3"), "end"]))
+    return out
+
+
 def nontrivial(case):
     """a history in which an array with >= 2 owners loses an owner that is not the youngest live container"""
     ops = split_ops(case)
@@ -974,6 +1005,9 @@ def nontrivial(case):
             if t[0] == "end":
                 break
             clock += 1
+            if t[0] == "T2":
+                ref.apply(t)
+                continue
             if t[0] in ("destroy", "clear", "move", "conv", "clone", "mlay", "xconv"):
                 s = int(t[1])
                 c = ref.slots[s] if 0 <= s < NSLOT else None
@@ -998,6 +1032,9 @@ def describe(case):
     keys = set()
     for t in ops:
         keys.add("op:" + t[0])
+        if t[0] == "T2":
+            keys.add("tuple-op:" + t[2][0])
+            continue
         if t[0] == "clone":
             keys.add("clone-mode:" + t[3])
         if t[0] in ("new", "mat", "mk"):
@@ -1061,7 +1098,7 @@ def main(argv):
         return vlib.run_pipeline(PROP, args.tier, args.seed, lean, streams, t0, replay_mode=True)
     quick = args.tier == "quick"
     n_hist = 1500 if quick else 16000
-    cross = cross_type_cases() + shared_target_cases()
+    cross = cross_type_cases() + shared_target_cases() + tuple_cases()
     for c in CORPUS + cross:      # deterministic cases must be histories the oracle really judges
         r = Ref()
         for t in split_ops(c):
@@ -1091,8 +1128,6 @@ def main(argv):
         vlib.Stream("exhaustive-small", exh, [binary], drv, oracle=oracle, canon=canon,
                     nontrivial=lambda c: True, describe=exh_describe, signature=signature),
     ]
-    streams.append(vlib.Stream("edge-F4", EDGE_F4, [binary], drv, oracle=oracle, canon=canon,
-                               nontrivial=lambda c: False, describe=describe, signature=signature_f4))
     if not quick:
         streams.append(vlib.Stream("exhaustive-small-asan", exh, [asan], drv, oracle=oracle, canon=canon,
                                    nontrivial=lambda c: False, describe=exh_describe, signature=signature))
@@ -1102,7 +1137,8 @@ def main(argv):
             "random teardown order, MemoryPool::finalize at the end; plus 144 deterministic cross-type clone(5 modes)/convert "
             "cases (DT equal/IT different and vice versa, live and fresh target, writes through both sides) and "
             "view<->owner move assignments, 67 cases with a NON-EMPTY target that shares its arrays with a third container "
-            "(clone-into 5 modes / convert-into / move-assign / copy / layout assignment, equal sizes); plus EVERY op sequence of length <= 4 "
+            "(clone-into 5 modes / convert-into / move-assign / copy / layout assignment, equal sizes), 21 histories over real "
+            "TupleVector<DenseVector, DenseVector> objects (each tuple op = its two component ops); plus EVERY op sequence of length <= 4 "
             "over 3 containers + 1 layout from a finite alphabet (new DV/CSR, clone 5 modes, convert same/other type, "
             "move, clear, destroy, format, range, adopt, dense<->blocked, layout take/make/drop, incl. self and aborting "
             "ops); full pool+container state compared after every "
